@@ -287,6 +287,9 @@ class yanny(OrderedDict):
                 t = dt[c].str[1:]
                 l = 0
                 s = dt[c].itemsize
+            if t[0] == 'U':
+                # itemsize counts bytes; unicode strings use 4 per character.
+                s //= 4
             line = '    '
             if t[0] in 'SU':
                 if c in enums:
